@@ -62,7 +62,7 @@ def plan(tier):
     kname = 'C14'
     src.append('#include <cstring>\nstatic int vp_ref_numeral(long long v, int base, char* out) { char tmp[80]; int n = 0; unsigned long long m = v < 0 ? 0ULL - static_cast<unsigned long long>(v) : static_cast<unsigned long long>(v); '
                'do { int d = int(m % base); tmp[n++] = char(d < 10 ? 48 + d : 87 + d); m /= base; } while (m); int k = 0; if (v < 0) out[k++] = 45; while (n) out[k++] = tmp[--n]; return k; }\n')
-    plan_ = [(ts, 10) for ts in ['i8', 'u8', 'i16', 'u16'] + (['i32', 'u32'] if thorough else [])]
+    plan_ = [(ts, 10) for ts in ['i8', 'u8', 'i16', 'u16'] + (['u32'] if thorough else [])]      # int32_t: no SAT answer in 1800 s (sign path + 10 levels of 32-bit division), not claimed
     plan_ += [('u8', 16), ('i16', 16)] + ([('i8', 16), ('u16', 16), ('u16', 36), ('i8', 11)] if thorough else [])      # other bases (seed C14_2: digit ten printed as ':')
     for ts, base in plan_:
         t = T(ts)
@@ -87,7 +87,7 @@ def plan(tier):
     meta = {'instantiations': len(jobs),
             'explanation': 'digit-by-digit characterisation of the canonical numeral with one ghost index (no quantifier), recursion unwound completely',
             'not_applicable_parts': ['scaled_integer text (layout selection fixed/scientific, truncation): needs a decimal parser as a spec function over an input-dependent layout; not built',
-                                     '64/128-bit and wide integers: 20+ levels of 64-bit division by 10 against the spec dividers; not claimed',
+                                     'int32_t, 64/128-bit and wide integers: 10-20+ levels of 32/64-bit division by 10 against the spec dividers (int32_t: solver timeout at 1800 s); not claimed',
                                      'to_string / operator<< (std::string, iostreams)', 'the lowest value of int32/int64 (C13 known finding)'],
             'assumptions': ['bases 10 and 16 (quick), 11 and 36 added in the thorough tier; other bases not instantiated']}
     return {'kernels': [k], 'jobs': jobs, 'meta': meta}
